@@ -246,6 +246,7 @@ func stripLoads(v ssa.Value) ssa.Value {
 
 // ConstInt returns the integer value of a constant SSA value.
 func ConstInt(v ssa.Value) (int64, bool) {
+	v = boundConst(v)
 	c, ok := v.(*ssa.Const)
 	if !ok || c.Value == nil {
 		return 0, false
@@ -258,6 +259,7 @@ func ConstInt(v ssa.Value) (int64, bool) {
 
 // ConstBool returns the boolean value of a constant SSA value.
 func ConstBool(v ssa.Value) (bool, bool) {
+	v = boundConst(v)
 	c, ok := v.(*ssa.Const)
 	if !ok || c.Value == nil || c.Value.Kind() != constant.Bool {
 		return false, false
@@ -267,6 +269,7 @@ func ConstBool(v ssa.Value) (bool, bool) {
 
 // ConstString returns the string value of a constant SSA value.
 func ConstString(v ssa.Value) (string, bool) {
+	v = boundConst(v)
 	c, ok := v.(*ssa.Const)
 	if !ok || c.Value == nil || c.Value.Kind() != constant.String {
 		return "", false
@@ -312,3 +315,18 @@ func EnumConsts(t types.Type) map[int64]string {
 
 // FieldNameOf exposes fieldName.
 func FieldNameOf(t types.Type, i int) string { return fieldName(t, i) }
+
+// boundConst: a parameter that is bound to a constant argument - by the only call
+// of its function (virtual inlining view) or by a binding in force (see
+// SetOverride) - stands for that constant: `n.hasStatus(StatusNone)` compares
+// with StatusNone inside hasStatus.
+func boundConst(v ssa.Value) ssa.Value {
+	if p, ok := v.(*ssa.Parameter); ok {
+		if d := Deep(p); d != nil {
+			if _, isC := d.(*ssa.Const); isC {
+				return d
+			}
+		}
+	}
+	return v
+}
